@@ -34,6 +34,7 @@ def run(chk, replay=None):
                             'out_L2_around': iob[max(0, i - 150):i + 80].decode('utf-8', 'replace') if isinstance(iob, bytes) else iob}, tags=['interference'])
         chk.streams.append({'stream': 'paired lines', 'cfg': cfg.describe(), 'pairs': len(pairs)})
         if ci == 0:
+            pairs0 = pairs      # literals of strings only vary (no --redactNumbers / --redactBooleans): reused for the CLI pass below
             # the same question through the stream processor (scanner / reader path): long variants first
             from vlib import streamlib
             sel = sorted([p for p in pairs if p[0] != p[1]], key=lambda p: -len(p[1]))[:25] + [p for p in pairs if p[0] != p[1]][:15]
@@ -45,6 +46,35 @@ def run(chk, replay=None):
                     chk.violate('stream outputs of two lines that differ only in sensitive literal contents differ', {'cfg': cfg.describe(), 'L': a.decode('utf-8', 'replace')[:800], 'L2_len': len(b), 'L2': b.decode('utf-8', 'replace')[:800],
                                 'out_L': oa[:200].decode('utf-8', 'replace'), 'out_L2': ob[:200].decode('utf-8', 'replace'), 'result_L': ca, 'result_L2': cb}, tags=['interference', 'stream'])
             chk.streams.append({'stream': 'paired lines through the stream processor', 'pairs': len(sel), 'longest': max([len(p[1]) for p in sel] or [0])})
+    # through the CLI, in the surroundings a user may run it in: an empty working directory, one that holds a (valid) key file under the default
+    # name left by an earlier `--encrypt` run, and with --encryptionKeyFile naming an existing key WITHOUT --encrypt. In placeholder mode the
+    # two logs that differ only in their secrets must come out byte for byte the same in every one of them.
+    import subprocess, tempfile, os, base64 as _b64
+    from vlib import streamlib as _sl
+    diff = [p for p in pairs0 if p[0] != p[1] and len(p[0]) < 60000 and len(p[1]) < 60000 and b'\n' not in p[0] and b'\n' not in p[1]][:60]
+    logA = b'\n'.join(a for a, _, _ in diff) + b'\n'; logB = b'\n'.join(b for _, b, _ in diff) + b'\n'
+    keytext = _b64.b64encode(bytes((i * 5 + 1) % 256 for i in range(64)))
+    for surroundings in ('empty directory', 'default key file present', 'key file named without --encrypt', 'key file present, output to a file'):
+        with tempfile.TemporaryDirectory() as d:
+            open(os.path.join(d, 'a.log'), 'wb').write(logA); open(os.path.join(d, 'b.log'), 'wb').write(logB)
+            extra = []
+            if surroundings != 'empty directory': open(os.path.join(d, 'anonymongo.enc.key'), 'wb').write(keytext)
+            if surroundings == 'key file named without --encrypt':
+                open(os.path.join(d, 'my.key'), 'wb').write(keytext); extra = ['--encryptionKeyFile', 'my.key']
+            outs = []
+            for name in ('a.log', 'b.log'):
+                if surroundings.endswith('output to a file'):
+                    rc, so, se = _sl.cli_run(['redact', name, '-o', name + '.out'] + extra, cwd=d)
+                    so = open(os.path.join(d, name + '.out'), 'rb').read() if os.path.exists(os.path.join(d, name + '.out')) else b''
+                else:
+                    rc, so, se = _sl.cli_run(['redact', name] + extra, cwd=d)
+                outs.append((rc, so))
+            chk.count(2); chk.nontriv(('cli-surroundings', surroundings))
+            if outs[0] != outs[1] or outs[0][0] != 0:
+                i = next((i for i in range(min(len(outs[0][1]), len(outs[1][1]))) if outs[0][1][i] != outs[1][1][i]), 0)
+                chk.violate('CLI outputs of two logs that differ only in sensitive literal contents differ', {'surroundings': surroundings, 'rcs': [outs[0][0], outs[1][0]], 'pairs': len(diff),
+                            'out_L_around': outs[0][1][max(0, i - 150):i + 80].decode('utf-8', 'replace'), 'out_L2_around': outs[1][1][max(0, i - 150):i + 80].decode('utf-8', 'replace')}, tags=['interference', 'cli'])
+    chk.streams.append({'stream': 'CLI, placeholder mode, paired logs in four surroundings (key files lying around)', 'pairs': len(diff)})
     # the class test the walkers may legitimately apply to a value: model matcher vs IsEmail
     rng = random.Random(chk.seed)
     cand = []
